@@ -117,6 +117,61 @@ class C06(PropertyCheck):
         "thorough": "rectangular_neighbors_from / Mesh2DRectangular.neighbors for every mesh shape 3..16 x 3..16 "
                     "(everything else is structured random generation)",
     }
+    modelled_functions = [
+        "autoarray/inversion/pixelization/mappers/mapper_util.py:mapping_matrix_from",
+        "autoarray/inversion/pixelization/mappers/mapper_util.py:data_slim_to_pixelization_unique_from",
+        "autoarray/inversion/pixelization/mappers/mapper_util.py:pix_indexes_for_sub_slim_index_delaunay_from",
+        "autoarray/inversion/pixelization/mappers/mapper_util.py:pixel_weights_delaunay_from",
+        "autoarray/inversion/pixelization/mappers/abstract.py:AbstractMapper.mapping_matrix",
+        "autoarray/inversion/pixelization/mappers/abstract.py:AbstractMapper.unique_mappings",
+        "autoarray/inversion/pixelization/mappers/abstract.py:AbstractMapper.neighbors",
+        "autoarray/inversion/pixelization/mappers/abstract.py:AbstractMapper.pix_indexes_for_sub_slim_index",
+        "autoarray/inversion/pixelization/mappers/abstract.py:AbstractMapper.pix_sizes_for_sub_slim_index",
+        "autoarray/inversion/pixelization/mappers/abstract.py:AbstractMapper.pix_weights_for_sub_slim_index",
+        "autoarray/inversion/pixelization/mappers/abstract.py:AbstractMapper.slim_index_for_sub_slim_index",
+        "autoarray/inversion/pixelization/mappers/abstract.py:PixSubWeights.__init__",
+        "autoarray/inversion/pixelization/mappers/rectangular.py:MapperRectangular.pix_sub_weights",
+        "autoarray/inversion/pixelization/mappers/delaunay.py:MapperDelaunay.pix_sub_weights",
+        "autoarray/inversion/pixelization/mappers/delaunay.py:MapperDelaunay.delaunay",
+        "autoarray/inversion/pixelization/mappers/factory.py:mapper_from",
+        "autoarray/inversion/pixelization/mappers/mapper_grids.py:MapperGrids.__init__",
+        "autoarray/inversion/pixelization/mesh/mesh_util.py:rectangular_neighbors_from",
+        "autoarray/inversion/pixelization/mesh/mesh_util.py:rectangular_corner_neighbors",
+        "autoarray/inversion/pixelization/mesh/mesh_util.py:rectangular_top_edge_neighbors",
+        "autoarray/inversion/pixelization/mesh/mesh_util.py:rectangular_left_edge_neighbors",
+        "autoarray/inversion/pixelization/mesh/mesh_util.py:rectangular_right_edge_neighbors",
+        "autoarray/inversion/pixelization/mesh/mesh_util.py:rectangular_bottom_edge_neighbors",
+        "autoarray/inversion/pixelization/mesh/mesh_util.py:rectangular_central_neighbors",
+        "autoarray/inversion/pixelization/mesh/mesh_util.py:delaunay_triangle_area_from",
+        "autoarray/inversion/pixelization/mesh/rectangular.py:Rectangular.__init__",
+        "autoarray/inversion/pixelization/mesh/rectangular.py:Rectangular.mapper_grids_from",
+        "autoarray/inversion/pixelization/mesh/rectangular.py:Rectangular.mesh_grid_from",
+        "autoarray/inversion/pixelization/mesh/triangulation.py:Triangulation.mapper_grids_from",
+        "autoarray/inversion/pixelization/mesh/delaunay.py:Delaunay.mesh_grid_from",
+        "autoarray/inversion/pixelization/mesh/abstract.py:AbstractMesh.relocated_grid_from",
+        "autoarray/inversion/pixelization/mesh/abstract.py:AbstractMesh.relocated_mesh_grid_from",
+        "autoarray/structures/mesh/rectangular_2d.py:Mesh2DRectangular.__init__",
+        "autoarray/structures/mesh/rectangular_2d.py:Mesh2DRectangular.overlay_grid",
+        "autoarray/structures/mesh/rectangular_2d.py:Mesh2DRectangular.neighbors",
+        "autoarray/structures/mesh/rectangular_2d.py:Mesh2DRectangular.pixels",
+        "autoarray/structures/mesh/delaunay_2d.py:Mesh2DDelaunay.neighbors",
+        "autoarray/structures/mesh/triangulation_2d.py:Abstract2DMeshTriangulation.__init__",
+        "autoarray/structures/mesh/triangulation_2d.py:Abstract2DMeshTriangulation.delaunay",
+        "autoarray/structures/mesh/triangulation_2d.py:Abstract2DMeshTriangulation.pixels",
+        "autoarray/inversion/linear_obj/unique_mappings.py:UniqueMappings.__init__",
+        "autoarray/inversion/linear_obj/neighbors.py:Neighbors.__new__",
+        "autoarray/geometry/geometry_util.py:central_pixel_coordinates_2d_from",
+        "autoarray/geometry/geometry_util.py:central_scaled_coordinate_2d_from",
+        "autoarray/geometry/geometry_util.py:grid_pixel_centres_2d_slim_from",
+        "autoarray/geometry/geometry_util.py:grid_pixel_indexes_2d_slim_from",
+        "autoarray/structures/grids/grid_2d_util.py:grid_2d_slim_via_shape_native_from",
+        "autoarray/operators/over_sampling/over_sample_util.py:slim_index_for_sub_slim_index_via_mask_2d_from",
+        "autoarray/operators/over_sampling/over_sample_util.py:total_sub_pixels_2d_from",
+        "autoarray/operators/over_sampling/uniform.py:OverSamplerUniform.__init__",
+        "autoarray/operators/over_sampling/uniform.py:OverSamplerUniform.sub_length",
+        "autoarray/operators/over_sampling/uniform.py:OverSamplerUniform.sub_fraction",
+        "autoarray/operators/over_sampling/uniform.py:OverSamplerUniform.slim_for_sub_slim",
+    ]
     trusted_extra = [
         "Qhull via scipy.spatial.Delaunay (simplices, find_simplex, vertex_neighbor_vertices): modelled, not "
         "verified; contract (non-degenerate Delaunay simplices, located point in its simplex, unlocated point "
